@@ -269,6 +269,15 @@ Section Run.
     | _ => (on_disconnect c1, st)
     end.
 
+  (* a yield inside one of feed's `except` clauses (the ProtocolError events): a GeneratorExit raised there is
+     not seen by the sibling `except GeneratorExit` clause, so on_disconnect() does not run *)
+  Definition handler_yield (c : conn) (e : ev) (post : conn -> conn * status) : conn * status :=
+    let '(c1, st) := in_feed_yield c e in
+    match st with
+    | SOk => post c1
+    | _ => (c1, st)
+    end.
+
   (* ---------- Message.build ---------- *)
   Inductive merr := MCritical | MProtocol.
   Inductive message :=
@@ -319,9 +328,9 @@ Section Run.
   Definition raise_in_feed (c : conn) (e : merr) : conn * status :=
     match e with
     | MCritical =>
-        feed_yield c (EvProtocolError true) (fun c1 => (c1, SRaise SForce))            (* force_disconnect() *)
+        handler_yield c (EvProtocolError true) (fun c1 => (c1, SRaise SForce))            (* force_disconnect() *)
     | MProtocol =>
-        feed_yield c (EvProtocolError false)
+        handler_yield c (EvProtocolError false)
           (fun c1 => (fst (ws_close c1 (Some 1002) []), SRaise SForce))                (* close(1002, msg); force_disconnect() *)
     end.
 
